@@ -672,5 +672,8 @@ def run(ck):
                (r == 'C17.f' and k.startswith(('sts_n', 'sts_atmost'))),
                'requests arrive and responses leave through the exact transfer calls: every octet of a response is offered to the sink until it is taken, a retry signal drops or repeats none')
     ck.rule('C06.k', 'a valid request is RECEIVED as one: acceptance of a frame depends on the checksums it declares and on nothing the frame memory held before (C07.a gating re-evaluated) - a request without the optional header checksum is not refused because a recycled block still holds an earlier frame\'s checksum field')
+    ck.rule('C06.l', 'on a serial channel the answer reaches the peer as the words the backend delivered only if the SLIP encoder escapes every delimiter / escape octet of the payload - whatever its position - and nothing else (C12.a escape tables re-evaluated)')
+    reevaluate(ck, 'C06.l', 'c12', lambda r, k: r == 'C12.a',
+               'send_memory frames serial answers with rfc1055_encode')
     reevaluate(ck, 'C06.k', 'c07', lambda r, k: r == 'C07.a',
                'exactly-once execution starts with reception: the gating of the checksum comparisons decides which valid requests reach regp_process')
